@@ -1664,6 +1664,11 @@ func (mgr *Manager) convertStreamJob(allConverters []*converters.CachedConverter
 				if tag.features.MainFeatures&query.FeatureFilterData == 0 && tag.features.SubQueryFeatures&query.FeatureFilterData == 0 {
 					continue
 				}
+				if tag.features.SubQueryFeatures&query.FeatureFilterData != 0 {
+					// what a sub query finds in the converted data decides about every stream
+					tag.Uncertain = mgr.allStreams
+					continue
+				}
 				tag.Uncertain = tag.Uncertain.OrCopy(*allStreamIDs[i])
 			}
 			mgr.updatedStreamsDuringTaggingJob.Or(*allStreamIDs[i])
@@ -2075,6 +2080,11 @@ func (mgr *Manager) converterOutputAdded(streams bitmask.LongBitmask) {
 	for _, tag := range mgr.tags {
 		// TODO: Only tag again if the tag matches converted data
 		if tag.features.MainFeatures&query.FeatureFilterData == 0 && tag.features.SubQueryFeatures&query.FeatureFilterData == 0 {
+			continue
+		}
+		if tag.features.SubQueryFeatures&query.FeatureFilterData != 0 {
+			// what a sub query finds in the converted data decides about every stream
+			tag.Uncertain = mgr.allStreams
 			continue
 		}
 		tag.Uncertain = tag.Uncertain.OrCopy(streams)
